@@ -16,6 +16,10 @@ Only the ion-association clause has parts whose truth is in the shape of the cod
                LLNL B-dot  -A z^2 sqrt(I)/(1 + a0 B sqrt(I)) + bdot I,  "always 1"  0.
                The exchange-species variants (case 4 with exch_gflag 1, 2, 7) must be coef times the same equation plus the
                (opaque) equivalent-fraction term.  Algebraically equivalent rewrites compare equal; a changed coefficient, sign or operand does not.
+  C16.water    Pitzer and SIT: "water activity equals exp(-M_w phi sum m)" as far as it is closed-form code: the osmotic coefficient
+               is 1 + 2 OSMOT/OSUM (Pitzer) resp. 1 + OSMOT ln10/OSUM (SIT), the water activity is exp(-OSUM COSMOT/55.50837), and
+               OSUM - the total solute molality - is accumulated as + M[i] over the list that the model's make_lists routine
+               fills with EVERY solute present (the push that is not conditional on the charge class), not over a sub-list
 Not decided: the values of A, B and the ionic strength, the exchange and surface conventions (cases 4 and 6), Pitzer and SIT
 sums, Gibbs-Duhem consistency, water activity (all numerical).
 """
@@ -82,6 +86,7 @@ def symbol_of(n):
 def run(P, R, tier):
     R.undecided += ["values of the Debye-Hueckel constants and of the ionic strength at which the formulas are evaluated",
                     "exchange and surface activity conventions (gflag 4, 6)", "Pitzer and SIT excess-energy sums, Gibbs-Duhem consistency, water activity / osmotic coefficient"]
+    water_rule(P, R)
     # ------------------------------------------------------------------ writers of gflag
     R.rule("C16.cases", "every activity-model number assigned to species::gflag has a case in every switch over gflag", minimum=40)
     written = {}
@@ -246,6 +251,78 @@ def run(P, R, tier):
             else:
                 R.violation("C16.param", inst, "model %s reads species field(s) {%s} in gammas but the code that selects it stores {%s}: the parsed parameter never reaches the model"
                             % (v, ", ".join(sorted(reads - stored)), ", ".join(sorted(stored))), file=f["file"], line=asg[1], function=f["q"])
+
+
+def water_rule(P, R):
+    R.rule("C16.water", "Pitzer / SIT: osmotic coefficient and water activity are the defining expressions; total molality runs over the all-solutes list", minimum=6)
+    S = RF.Rat.sym
+    for model, fn, mk, want_cos in (("pitzer", "Phreeqc::pitzer", "Phreeqc::pitzer_make_lists", "1 + 2*OSMOT/OSUM"), ("sit", "Phreeqc::sit", "Phreeqc::sit_make_lists", "1 + OSMOT*LN10/OSUM")):
+        fs = P.fns_named(fn)
+        ms = P.fns_named(mk)
+        if len(fs) != 1 or len(ms) != 1:
+            R.anchor_missing("C16.water", "%s / %s not found exactly once" % (fn, mk))
+            continue
+        f, m = fs[0], ms[0]
+        where = dict(file=f["file"], function=f["q"])
+        # the all-solutes list: a push_back in make_lists whose enclosing Ifs do not compare the species index / charge class,
+        # in the same block as the class-specific pushes
+        alls = None
+        for blk in T.walk(m["body"]):
+            if blk[0] != "Compound":
+                continue
+            direct = [s_ for s_ in blk[2] if T.is_node(s_) and s_[0] == "Call" and T.callee_name(s_) == "push_back"]
+            nested = [c for s_ in blk[2] if T.is_node(s_) and s_[0] == "If" for c in T.calls(s_[3]) if T.callee_name(c) == "push_back"]
+            if len(direct) == 1 and len(nested) >= 3:
+                alls = T.text(direct[0][3]).split(".")[-1]
+        if alls is None:
+            R.anchor_missing("C16.water", "%s: the unconditional push of every present solute not found" % mk)
+            continue
+
+        def sym(n):
+            if n[0] == "Member":
+                nm = n[2].split("::")[-1]
+                return "LN10" if nm == "LOG_10" else nm
+            if n[0] == "Ref":
+                return n[3]
+            return None
+        osum_ok = cos_ok = aw_ok = None
+        for lp in T.walk(f["body"]):
+            if lp[0] == "For":
+                for w in T.walk(lp[5]):
+                    if w[0] == "Bin" and w[2] in ("=", "+=") and T.text(w[3]) == "OSUM":
+                        dom = [y[2].split("::")[-1] for y in T.walk(lp[3]) if y[0] == "Member"] if T.is_node(lp[3]) else []
+                        r = T.strip_casts(w[4])
+                        acc = (w[2] == "+=" and r[0] in ("Index", "Call")) or (w[2] == "=" and r[0] == "Bin" and r[2] == "+" and T.text(r[3]) == "OSUM")
+                        osum_ok = (dom, acc, w[1])
+        for w in T.walk(f["body"]):
+            if w[0] == "Bin" and w[2] == "=" and T.text(w[3]) == "COSMOT":
+                try:
+                    cos_ok = (RF.from_tree(w[4], sym).same(RF.parse(want_cos)), w[1], T.text(w[4]))
+                except RF.NotRational:
+                    cos_ok = (False, w[1], T.text(w[4]))
+            if w[0] == "Bin" and w[2] == "=" and T.text(w[3]).endswith("AW"):
+                r = T.strip_casts(w[4])
+                if r[0] == "Call" and T.callee_name(r) == "exp":
+                    try:
+                        aw_ok = (RF.from_tree(r[4][0], sym).same(RF.parse("0 - OSUM*COSMOT/55.50837")), w[1], T.text(w[4]))
+                    except RF.NotRational:
+                        aw_ok = (False, w[1], T.text(w[4]))
+        if osum_ok is None or cos_ok is None or aw_ok is None:
+            R.anchor_missing("C16.water", "%s: OSUM loop / COSMOT / AW assignment not found" % fn)
+            continue
+        if osum_ok[1] and alls in osum_ok[0]:
+            R.ok("C16.water", model + ":total-molality", "OSUM += M[i] over %s (every solute present)" % alls)
+        else:
+            R.violation("C16.water", model + ":total-molality", "the total molality OSUM is accumulated over %s, not over %s which holds every solute present: species left out do not lower the "
+                        "water activity" % (osum_ok[0], alls), line=osum_ok[2], **where)
+        if cos_ok[0]:
+            R.ok("C16.water", model + ":osmotic", "COSMOT = %s" % want_cos)
+        else:
+            R.violation("C16.water", model + ":osmotic", "`COSMOT = %s` is not %s" % (cos_ok[2][:80], want_cos), line=cos_ok[1], **where)
+        if aw_ok[0]:
+            R.ok("C16.water", model + ":water-activity", "AW = exp(-OSUM COSMOT / 55.50837)")
+        else:
+            R.violation("C16.water", model + ":water-activity", "`AW = %s` is not exp(-OSUM COSMOT / 55.50837)" % aw_ok[2][:80], line=aw_ok[1], **where)
 
 
 def enclosing_list(body, node):
